@@ -3,6 +3,10 @@ use crate::codec::ZmqCodec;
 use asynchronous_codec::{FramedRead, FramedWrite};
 use futures::{AsyncRead, AsyncWrite};
 
+use std::sync::atomic::{AtomicU64, Ordering};
+
+static NEXT_CONNECTION_ID: AtomicU64 = AtomicU64::new(1);
+
 // Enables us to have multiple bounds on the dyn trait in `InnerFramed`
 pub trait FrameableRead: AsyncRead + Unpin + Send + Sync {}
 impl<T> FrameableRead for T where T: AsyncRead + Unpin + Send + Sync {}
@@ -16,6 +20,9 @@ pub(crate) type ZmqFramedWrite = asynchronous_codec::FramedWrite<Box<dyn Frameab
 pub struct FramedIo {
     pub read_half: ZmqFramedRead,
     pub write_half: ZmqFramedWrite,
+    /// Tells the two halves of this connection apart from those of any other
+    /// connection, in particular of a later one of a peer with the same identity.
+    pub(crate) connection_id: u64,
 }
 
 impl FramedIo {
@@ -25,6 +32,7 @@ impl FramedIo {
         Self {
             read_half,
             write_half,
+            connection_id: NEXT_CONNECTION_ID.fetch_add(1, Ordering::Relaxed),
         }
     }
 
